@@ -94,7 +94,8 @@ def step (s : RState) (t : Th) : Option (RState × Th) :=
   | .removeNode n, .p3 =>
     if t.fails then some (s, goto t .p9 false) else some ({ s with nodes := s.nodes.filter (fun x => x.1 != n) }, goto t .p4)
   | .removeNode n, .p4 =>
-    if t.fails then some (s, goto t .p9 false) else some ({ s with res := s.res.filter (· != n) }, goto t .p9)
+    -- cobalt's RemoveNode first reads the record: a missing record is an error
+    if t.fails || !s.res.contains n then some (s, goto t .p9 false) else some ({ s with res := s.res.filter (· != n) }, goto t .p9)
   | .removeNode _, .p9 => some (unlockStep s t)
   -- Create one instance on node n: GetNode → lock pod → Alloc → unlock → GetNode → AddWorkload
   | .create _ n, .p0 =>
@@ -109,7 +110,7 @@ def step (s : RState) (t : Th) : Option (RState × Th) :=
   | .create w n, .p5 =>
     if t.fails then some (s, finish t false) else some ({ s with wls := (w, n) :: s.wls }, finish t)
   | .create _ _, .p9 => some (unlockStep s t)
-  -- Remove: GetWorkload → GetNode → lock pod → RemoveWorkload → unlock
+  -- Remove: GetWorkloads → GetNode → lock pod → GetWorkloads again → lock workload → RemoveWorkload → unlock
   | .remove w, .p0 =>
     match nodeOfWl s w with
     | none => some (s, finish t false)
@@ -119,6 +120,9 @@ def step (s : RState) (t : Th) : Option (RState × Th) :=
   | .remove _, .p2 =>
     if s.locks.contains t.pod then none else some ({ s with locks := t.pod :: s.locks }, goto { t with locked := true } .p3)
   | .remove w, .p3 =>
+    if t.fails || (nodeOfWl s w).isNone then some (s, goto t .p9 false) else some (s, goto t .p4)
+  | .remove _, .p4 => some (s, goto t .p5)   -- the workload lock (never contended here)
+  | .remove w, .p5 =>
     if t.fails then some (s, goto t .p9 false) else some ({ s with wls := s.wls.filter (fun x => x.1 != w) }, goto t .p9)
   | .remove _, .p9 => some (unlockStep s t)
   | _, _ => some (s, finish t false)
@@ -132,7 +136,8 @@ def label (t : Th) : String :=
   | .removeNode _, .p0 => "getnode" | .removeNode _, .p1 => "lock" | .removeNode _, .p2 => "listwl"
   | .removeNode _, .p3 => "rmnode" | .removeNode _, .p4 => "resrm"
   | .create _ _, .p0 => "getnode" | .create _ _, .p1 => "lock" | .create _ _, .p2 => "alloc" | .create _ _, .p4 => "getnode" | .create _ _, .p5 => "addwl"
-  | .remove _, .p0 => "getwl" | .remove _, .p1 => "getnode" | .remove _, .p2 => "lock" | .remove _, .p3 => "rmwl"
+  | .remove _, .p0 => "getwl" | .remove _, .p1 => "getnode" | .remove _, .p2 => "lock" | .remove _, .p3 => "getwl"
+  | .remove _, .p4 => "lock" | .remove _, .p5 => "rmwl"
   | _, _ => ""
 
 structure Sys where
